@@ -68,6 +68,7 @@ struct D<'a, 'tcx> {
     tcx: TyCtxt<'tcx>,
     tc: &'tcx ty::TypeckResults<'tcx>,
     types: &'a mut Types,
+    unsafe_lines: Vec<usize>,
 }
 
 impl<'a, 'tcx> D<'a, 'tcx> {
@@ -174,6 +175,12 @@ impl<'a, 'tcx> D<'a, 'tcx> {
         }
     }
     fn block(&mut self, b: &'tcx hir::Block<'tcx>) -> String {
+        if let hir::BlockCheckMode::UnsafeBlock(hir::UnsafeSource::UserProvided) = b.rules {
+            if !b.span.from_expansion() {
+                let l = self.line(b.span);
+                self.unsafe_lines.push(l);
+            }
+        }
         let mut ss = Vec::new();
         for s in b.stmts {
             match s.kind {
@@ -814,12 +821,16 @@ impl rustc_driver::Callbacks for Cb {
                     let loc = sm.lookup_char_pos(span.lo());
                     let file = format!("{}", loc.file.name.prefer_local_unconditionally());
                     let vis = format!("{:?}", tcx.visibility(did));
-                    let mut d = D { tcx, tc, types: &mut types };
+                    let mut d = D { tcx, tc, types: &mut types, unsafe_lines: Vec::new() };
                     let params: Vec<String> = body.params.iter().map(|p| d.pat(p.pat)).collect();
                     let b = d.expr(body.value);
+                    let unsafe_lines: Vec<String> = d.unsafe_lines.iter().map(|l| l.to_string()).collect();
+                    let header_unsafe = tcx.fn_sig(did).skip_binder().safety().is_unsafe();
                     fns.push(format!(
-                        "{}:{{\"path\":{},\"kind\":{},\"vis\":{},\"file\":{},\"line\":{},\"inputs\":{},\"output\":{},\"params\":{},\"body\":{}}}",
+                        "{}:{{\"unsafe_blocks\":{},\"unsafe_fn\":{},\"path\":{},\"kind\":{},\"vis\":{},\"file\":{},\"line\":{},\"inputs\":{},\"output\":{},\"params\":{},\"body\":{}}}",
                         esc(&path),
+                        arr(unsafe_lines),
+                        header_unsafe,
                         esc(&path),
                         esc(&format!("{:?}", kind)),
                         esc(&vis),
